@@ -29,13 +29,16 @@ func c11Source(t *testing.T, v Version, user string) ([]byte, Reference, error) 
 	root, a, b, c, s1, s2, leaf := w.Alloc(), w.Alloc(), w.Alloc(), w.Alloc(), w.Alloc(), w.Alloc(), w.Alloc()
 	missing := w.Alloc()
 	s3, s4, globals, cryptName := w.Alloc(), w.Alloc(), w.Alloc(), w.Alloc()
+	packed, packed2 := w.Alloc(), w.Alloc()
 	must := func(err error) {
 		if err != nil {
 			t.Fatalf("harness: %v", err)
 		}
 	}
 	must(w.Put(leaf, String("shared leaf \x00\xff")))
-	must(w.Put(root, Dict{"A": a, "B": b, "Again": a, "Empty": Array{}, "EmptyD": Dict{}, "Null": nil, "Nested": Array{nil, Array{}, Dict{"X": nil}, leaf, Integer(-1), Real(0.5), Name("n m"), Boolean(true)}, "S1": s1, "S2": s2, "S3": s3, "S4": s4, "Missing": missing}))
+	must(w.Put(root, Dict{"A": a, "B": b, "Again": a, "Empty": Array{}, "EmptyD": Dict{}, "Null": nil, "Nested": Array{nil, Array{}, Dict{"X": nil}, leaf, Integer(-1), Real(0.5), Name("n m"), Boolean(true)}, "S1": s1, "S2": s2, "S3": s3, "S4": s4, "Missing": missing, "Direct": String("a direct string in the root dictionary"), "Strs": Array{String("one"), String("two \x00\xff")}, "Packed": packed}))
+	// objects stored in an object stream (where the version has them)
+	must(w.WriteCompressed([]Reference{packed, packed2}, Dict{"InObjStm": Boolean(true), "Next": packed2, "S": String("compressed")}, Array{leaf, Integer(5)}))
 	must(w.Put(a, Array{b, c, leaf, a})) // cycle through a itself
 	must(w.Put(b, Dict{"Back": root, "C": c, "Leaf": leaf}))
 	must(w.Put(c, Array{Array{Array{leaf}}, String(""), Name("")}))
@@ -280,6 +283,35 @@ func TestB2C11Copier(t *testing.T) {
 			if err != nil || again != copied {
 				t.Errorf("B2-FAIL memo %s: second copy gives %v, first %v (%v)", desc, again, copied, err)
 			}
+			// Redirect after a copy: later copies of objects that refer to the redirected
+			// reference point to the replacement, and copying the reference itself yields it
+			replacement := w.Alloc()
+			w.Put(replacement, Dict{"Replacement": Boolean(true)})
+			cp.Redirect(root, replacement)
+			if got, err := cp.CopyReference(root); err != nil || got != replacement {
+				t.Errorf("B2-FAIL redirect %s: CopyReference after Redirect gives %v, want %v (%v)", desc, got, replacement, err)
+			}
+			if got, err := cp.Copy(Array{root}); err != nil || !Equal(got, Array{replacement}) {
+				t.Errorf("B2-FAIL redirect %s: a later copy refers to %v, want %v (%v)", desc, got, replacement, err)
+			}
+			cp.Redirect(root, again)
+			// one in-memory source value copied and written twice: writing the first copy must
+			// not change the source value (nor, through it, the second copy)
+			var twice []Reference
+			if ro, err := src.Get(root, true); err == nil {
+				if rd, ok := ro.(Dict); ok {
+					for k := 0; k < 2; k++ {
+						c, err := cp.Copy(Array{rd["Direct"], rd["Strs"]})
+						if err != nil {
+							t.Errorf("B2-FAIL copy %s: in-memory value: %v", desc, err)
+							break
+						}
+						r := w.Alloc()
+						w.Put(r, c)
+						twice = append(twice, r)
+					}
+				}
+			}
 			if err := w.Close(); err != nil {
 				t.Errorf("B2-FAIL close %s: %v", desc, err)
 				continue
@@ -295,6 +327,16 @@ func TestB2C11Copier(t *testing.T) {
 			}
 			iso := &c11Iso{t: t, src: src, dst: dst, fwd: map[Reference]Reference{}, bwd: map[Reference]Reference{}, desc: desc}
 			iso.cmp("root", root, copied, 0)
+			if len(twice) == 2 {
+				o1, e1 := dst.Get(twice[0], true)
+				o2, e2 := dst.Get(twice[1], true)
+				iso2 := &c11Iso{t: t, src: dst, dst: dst, fwd: map[Reference]Reference{}, bwd: map[Reference]Reference{}, desc: desc + " (value copied twice)"}
+				if e1 != nil || e2 != nil {
+					t.Errorf("B2-FAIL get %s: value copied twice: %v %v", desc, e1, e2)
+				} else {
+					iso2.cmp("twice", o1, o2, 0)
+				}
+			}
 		}
 	}
 	t.Logf("B2-CASES %d", cases)
